@@ -3,6 +3,7 @@
 package main
 
 import (
+	"bytes"
 	"encoding/json"
 	"fmt"
 	"strconv"
@@ -75,8 +76,26 @@ func c02Top(s *EnumSpec, v []int) string {
 	return "SIP/2.0/UDP 127.0.0.1:5060;branch=z9hG4bKtop"
 }
 
+// c02CfgFor: the configuration a vector asks for. Response routing is the same under all of them.
+func c02CfgFor(s *EnumSpec, v []int) RCfg {
+	cfg := c02Cfg
+	cfg.Listens = []RListen{cfg.Listens[0]}
+	switch s.Val(v, "config") {
+	case "no-received":
+		cfg.Listens[0].NoReceived = "true"
+	case "must-rr-keep":
+		cfg.Listens[0].MustRR = true
+		cfg.KeepNextHop = "true"
+	case "two-entries-mixed":
+		// a second listens entry with the opposite received setting; the response still arrives on the first
+		cfg.Listens[0].NoReceived = "true"
+		cfg.Listens = append(cfg.Listens, RListen{Addr: "127.0.0.2", UDP: 5060, TCP: 5062, Backends: []string{"udp://127.0.1.3:7000"}})
+	}
+	return cfg
+}
+
 func c02Eval(v []int) (string, string, bool) {
-	w := StartRelayWorld(SimOpts{}, c02Cfg)
+	w := StartRelayWorld(SimOpts{}, c02CfgFor(c02Spec, v))
 	defer w.Close()
 	return c02EvalIn(w, v, 0)
 }
@@ -102,7 +121,12 @@ func c02EvalIn(w *RelayWorld, v []int, seq int) (string, string, bool) {
 	}
 	lines = append(lines, cur)
 	st, _ := strconv.Atoi(s.Val(v, "status"))
-	m := MsgSpec{Status: st, Reason: "Reason", Vias: lines, From: "<sip:alice@ua.example.net>;tag=f1", To: "<sip:bob@svc.example.com>;tag=t1", CallID: "c02", CSeq: "1 INVITE"}.Build()
+	var body []byte
+	if s.Val(v, "body") == "2000" {
+		// beyond every path-MTU rule of thumb (RFC 3261 18.1.1 speaks of 1300 bytes)
+		body = bytes.Repeat([]byte("0123456789abcdef"), 125)
+	}
+	m := MsgSpec{Status: st, Reason: "Reason", Vias: lines, From: "<sip:alice@ua.example.net>;tag=f1", To: "<sip:bob@svc.example.com>;tag=t1", CallID: "c02", CSeq: "1 INVITE", Body: body}.Build()
 	names := s.Val(v, "names")
 	k := 0
 	for i := range m.Hdrs {
@@ -213,9 +237,9 @@ func c02AgedSpec() *AgedSpec {
 	s := c02Spec
 	return &AgedSpec{Spec: s,
 		Group: func(v []int) string {
-			return fmt.Sprintf("top=%s,arrival=%s,names=%s,rest=%s", s.Val(v, "top"), s.Val(v, "arrival"), s.Val(v, "names"), s.Val(v, "rest"))
+			return fmt.Sprintf("top=%s,arrival=%s,names=%s,rest=%s,config=%s", s.Val(v, "top"), s.Val(v, "arrival"), s.Val(v, "names"), s.Val(v, "rest"), s.Val(v, "config"))
 		},
-		Open:  func(v []int) any { return &c02Aged{w: StartRelayWorld(SimOpts{}, c02Cfg)} },
+		Open:  func(v []int) any { return &c02Aged{w: StartRelayWorld(SimOpts{}, c02CfgFor(s, v))} },
 		Close: func(w any) { w.(*c02Aged).w.Close() },
 		Eval: func(w any, v []int) (string, string) {
 			a := w.(*c02Aged)
@@ -465,6 +489,8 @@ func init() {
 		{Name: "names", Vals: []string{"Via", "compact", "mixed", "upper"}, Quick: 3},
 		{Name: "status", Vals: []string{"200", "100", "180", "302", "404", "503", "603", "699"}, Quick: 3},
 		{Name: "arrival", Vals: []string{"udp", "tcp"}},
+		{Name: "config", Vals: []string{"default", "no-received", "must-rr-keep", "two-entries-mixed"}},
+		{Name: "body", Vals: []string{"none", "2000"}},
 	}, Eval: c02Eval, Sample: 20000}
 	s := c02Spec
 	s.Valid = func(v []int) bool {
@@ -497,10 +523,17 @@ func init() {
 		if v[s.idx("status")] != 0 && v[s.idx("names")] != 0 {
 			return false
 		}
+		// configuration and body size are crossed with the routing entry (transport, host, port,
+		// received, rport, rest, top, arrival) but not with the cosmetic dimensions
+		if v[s.idx("config")] != 0 || v[s.idx("body")] != 0 {
+			if v[s.idx("status")] != 0 || v[s.idx("names")] != 0 || v[s.idx("extra")] != 0 || (mask != 0 && mask != (1<<(n-1))-1) {
+				return false
+			}
+		}
 		return true
 	}
 	addCheck(&Check{ID: "C02", Level: "model_checking",
-		Rule:   "(inputs) complete product: routing entry (transport x host literal/host-table name x port x received x rport {absent, valueless, numeric, non-numeric} x extra parameters, plus 6 undecodable / missing shapes) x top entry x 0-4 further entries x EVERY layout (all compositions into header lines, full/compact/mixed/upper-case names) x status class x arrival transport, each on a fresh world, and a second pass feeding all cases of one class into ONE long-lived world; (histories) explicit-state BFS by replay over three concurrent transactions (UDP and TCP user agents, UDP and TCP backends): events {request t, backend answers t with 180 / 200 (repeatable)} in every order to depth 6 (thorough 8), received-support on/off; non-trivial = a Via entry remains after the pop / history longer than one event",
+		Rule:   "(inputs) complete product: routing entry (transport x host literal/host-table name x port x received x rport {absent, valueless, numeric, non-numeric} x extra parameters, plus 6 undecodable / missing shapes) x top entry x 0-4 further entries x EVERY layout (all compositions into header lines, full/compact/mixed/upper-case names) x status class x arrival transport x configuration {default, no-received, must-record-route + keep-next-hop-route, two listens entries with opposite received settings} x body {none, 2000 bytes} (the last two crossed with the routing entry, not with the cosmetic dimensions), each on a fresh world, and a second pass feeding all cases of one class into ONE long-lived world; (histories) explicit-state BFS by replay over three concurrent transactions (UDP and TCP user agents, UDP and TCP backends): events {request t, backend answers t with 180 / 200 (repeatable)} in every order to depth 6 (thorough 8), received-support on/off; non-trivial = a Via entry remains after the pop / history longer than one event",
 		Assume: []string{"sent-by hosts are IPv4 literals or host-table names (stated domain); undecodable shapes only in the two entries the proxy must consult"},
 		Run: func(c *Ctx) {
 			c02Spec.Run(c)
